@@ -30,6 +30,11 @@ type Action struct {
 	Data  []byte        // datagram / TCP write; nil = nothing
 	Via   *UDP          // send from this (third-party) endpoint instead of the addressed one
 	Close bool          // TCP: close the connection
+	// RepeatFor (UDP): after the first send keep sending Data back to back (a dense stream, a datagram every few
+	// microseconds) for this long
+	RepeatFor time.Duration
+	// Stop, when set and returning true, ends the script before this action (and a RepeatFor stream in progress)
+	Stop func() bool
 	Reset bool          // TCP: reset the connection (SO_LINGER 0)
 }
 
@@ -154,12 +159,31 @@ func (e *UDP) Play(to netip.AddrPort, actions []Action) {
 		if !sleepOrClosed(e.closed, a.Delay) {
 			return
 		}
+		if a.Stop != nil && a.Stop() {
+			return
+		}
 		if a.Data != nil {
 			src := e
 			if a.Via != nil {
 				src = a.Via
 			}
 			src.Send(to, a.Data)
+			if a.RepeatFor > 0 {
+				end := time.Now().Add(a.RepeatFor)
+				for i := 0; time.Now().Before(end); i++ {
+					src.Send(to, a.Data)
+					if a.Stop != nil && i%8 == 7 && a.Stop() {
+						return
+					}
+					if i%64 == 63 {
+						select {
+						case <-e.closed:
+							return
+						default:
+						}
+					}
+				}
+			}
 		}
 	}
 }
